@@ -157,7 +157,9 @@ def run_sweep(spec):
     if o.check(len(z0) == len(z1), "axial_mesh_differs", "%d vs %d planes" % (len(z0), len(z1))):
         dz = float(np.max(np.abs(z0 - z1)))
         o.metric("plane_deviation_m", dz)
-        o.check(dz <= 1e-12, "axial_planes_differ", "%.3e m" % dz)
+        # (every plane is the previous one plus the step, rounded to 1e-12 m: a last-bit difference of the converted step
+        #  can flip one rounding per plane, and the flips accumulate along the height)
+        o.check(dz <= 1e-12 * len(z0), "axial_planes_differ", "%.3e m over %d planes" % (dz, len(z0)))
         if o.check(t0.shape == t1.shape, "temperature_fields_differ_in_shape", "%s vs %s" % (t0.shape, t1.shape)):
             dt = float(np.max(np.abs(t0 - t1)))
             o.metric("temperature_deviation_K", dt)
